@@ -13,7 +13,7 @@ let proto_of = function
   | "redistribute" -> Some PRedistribute
   | "dkls23" -> Some PDkls23
   | "lindell22" | "lindell22-2" -> Some PLindell22
-  | "boldyreva" -> Some PBoldyreva
+  | "boldyreva" | "boldyreva-pop" -> Some PBoldyreva
   | "canetti" -> Some PCanetti
   | "aor" -> Some PAor
   | "dkls23-softspoken" -> Some PSoftspoken
